@@ -122,7 +122,7 @@ def monitor(gen: int, script, out, pid0: int) -> list[str]:
 
 
 def run(ck: common.Check, prop: str, tier: str) -> None:
-    rng = random.Random(ck.seed * 613 + (1 if prop == "C01" else 2))
+    rng = random.Random(ck.seed * 613 + {"C01": 1, "C02": 2}.get(prop, 3))
     n = 0
     for gen in (4, 5):
         for script in scripts(rng, 150 if tier == "quick" else 3000):
@@ -130,7 +130,9 @@ def run(ck: common.Check, prop: str, tier: str) -> None:
             n += 1
             ck.count()
             bad = monitor(gen, script, out, pid0)
-            if prop == "C01":
+            if prop == "C16":
+                bad = [b for b in bad if "lifetime ended" in b]           # expired entries are never transmitted
+            elif prop == "C01":
                 bad = [b for b in bad if "lifetime ended" not in b]
             else:
                 bad = [b for b in bad if "lifetime ended" in b or "times (no write fault" in b]
